@@ -67,6 +67,10 @@ def gate(prop, thorough=False):
             cache = {'hash': sh, 'props': {}}
             t0 = time.time()
             p = subprocess.run(['lake', 'build'], cwd=LEAN_DIR, stdout=subprocess.PIPE, stderr=subprocess.STDOUT)
+            if p.returncode != 0:
+                # a compiler process killed under memory pressure is not a verdict about the proofs: build once more, alone
+                time.sleep(5)
+                p = subprocess.run(['lake', 'build'], cwd=LEAN_DIR, stdout=subprocess.PIPE, stderr=subprocess.STDOUT)
             cache['build_ok'] = p.returncode == 0
             cache['build_s'] = round(time.time() - t0, 1)
             cache['build_tail'] = p.stdout.decode('utf-8', 'replace')[-3000:]
